@@ -11,7 +11,7 @@ E == Trace[l]
 TraceInit == l = 1 /\ ok = TRUE /\ TLCSet(1, 0)
 Opt(x) == IF x = << <<"none">> >> THEN None ELSE x
 TraceNext == /\ ok /\ l <= Len(Trace)
-             /\ LET d == IdealDispatch(E.chain, Opt(E.onerror), Opt(E.hook)) IN
+             /\ LET d == IdealDispatch(ExpandChain(E.chain), Opt(E.onerror), Opt(E.hook)) IN
                 ok' = /\ E.log = d.log
                       /\ E.escaped = d.escaped
                       /\ (~d.escaped => E.under = d.w.under)
